@@ -1,4 +1,4 @@
-"""Probe for finding F-C09-1 (run with /venv/bin/python): a constituent whose coordinates are NaN
+"""Probe for finding F-C09-1 (fixed in /repo by 8cf210c; run with /venv/bin/python): a constituent whose coordinates are NaN
 is averaged in by do_average_bead although vermouth.selectors.selector_has_position says it has no
 position; the particle becomes NaN even when that constituent has weight 0."""
 import sys
